@@ -11,8 +11,12 @@ import (
 	"fmt"
 	"math/rand"
 	"os"
+	"os/signal"
 	"sort"
 	"strconv"
+	"sync"
+	"syscall"
+	"time"
 )
 
 var out *bufio.Writer
@@ -22,9 +26,20 @@ var stats = map[string]int{}
 
 func stat(key string, n int) { stats[key] += n }
 
+var outMu sync.Mutex
+var lastFlush time.Time
+
+// emit writes one case line. The stream is flushed at least once a second, so that what a run produced is
+// on disk when the run is cut off by its time limit (the cases written until then are still judged).
 func emit(format string, a ...interface{}) {
+	outMu.Lock()
 	fmt.Fprintf(out, format, a...)
 	out.WriteByte('\n')
+	if time.Since(lastFlush) > time.Second {
+		out.Flush()
+		lastFlush = time.Now()
+	}
+	outMu.Unlock()
 }
 
 type modeFn func(tier string, args []string)
@@ -48,6 +63,14 @@ func main() {
 	os.Stdout = os.Stderr
 	out = bufio.NewWriterSize(caseOut, 1<<20)
 	defer out.Flush()
+	sig := make(chan os.Signal, 1)
+	signal.Notify(sig, syscall.SIGTERM)
+	go func() {
+		<-sig
+		outMu.Lock()
+		out.Flush()
+		os.Exit(124)
+	}()
 	f, ok := modes[os.Args[1]]
 	if !ok {
 		fmt.Fprintln(os.Stderr, "harness: unknown mode", os.Args[1])
